@@ -44,6 +44,7 @@ from ..runner import HarnessError, Part
 TYPES = {
     "length": (["m", "cm", "km", "mm"], 2.0, 500.0),
     "temperature": (["K", "degC", "degF"], 273.15, 373.15),
+    "time": (["s", "min"], -3600.0, 0.0),  # a maximum of exactly zero (and negative amounts) in every unit
 }
 LIMIT_KINDS = [
     ("none", None, None, False, False),
@@ -380,7 +381,7 @@ def _copy_task(task):
     part = Part()
     units, lo_b, hi_b = TYPES[qt]
     du = units[0]
-    du2 = units[2]  # the second category keeps its limits in ANOTHER default unit
+    du2 = units[2] if len(units) > 2 else units[-1]  # the second category keeps its limits in ANOTHER default unit
     for kindB in LIMIT_KINDS:
         db = worlds.mini("bare")
         lo_du, hi_du = lo_b, hi_b
